@@ -1,13 +1,16 @@
 // C33 harness: link up/down sequences on an IS-IS server with an active and/or a passive interface.
 //
-// Input tokens:  ifs=<a|p|ap>  then events  <U|D|N|L|T|M|K><i>   (i = interface index in ifs;
+// Input tokens:  ifs=<a|p|ap>  then events  <U|D|N|L|T|M|K><i>[t|r]   (i = interface index in ifs;
 //
 //	U = oper state up, the other letters are the six non-up oper states: D down, N not present,
-//	L lower layer down, T testing, M dormant, K unknown).
+//	L lower layer down, T testing, M dormant, K unknown; suffix t: the hello ticker of the interface
+//	fires WHILE DeviceUpdate processes the event (it holds the interface lock), suffix r: a neighbor's
+//	hello frame arrives on the interface while the event is processed).
 //
 // Observation, one token per event:
 //
-//	<outcome>/<state of if0>[/<state of if1>]/h<n>/a<0|1>/g<0|1>
+//	<outcome>/<state of if0>[/<state of if1>]/t<k>/h<n>/a<0|1>/g<0|1>
+//	t<k>    = hellos written between the start of the update and the moment everything had settled after it
 //	outcome = ok | panic:<kind> | blocked:<where>          (of the DeviceUpdate call)
 //	state   = k<devknown>u<operup>i<initialized>d<doneclosed>e<has handle>c<handle closed>n<#handles>
 //	h<n>    = hellos sent by all interfaces during the following 5 s of server time (one tick of every
@@ -84,8 +87,9 @@ func nbrHello(i int, circuit uint32) []byte {
 }
 
 type event struct {
-	st  byte
-	ifi int
+	st     byte
+	ifi    int
+	during byte // 0, 't' (hello tick while the update runs), 'r' (frame received while it runs)
 }
 
 func parse(in string) (kind string, evs []event, err error) {
@@ -98,7 +102,7 @@ func parse(in string) (kind string, evs []event, err error) {
 		return "", nil, fmt.Errorf("bad ifs")
 	}
 	for _, t := range f[1:] {
-		if len(t) != 2 {
+		if len(t) != 2 && !(len(t) == 3 && (t[2] == 't' || t[2] == 'r')) {
 			return "", nil, fmt.Errorf("bad event %q", t)
 		}
 		if _, ok := operState[t[0]]; !ok {
@@ -108,7 +112,11 @@ func parse(in string) (kind string, evs []event, err error) {
 		if i < 0 || i >= len(kind) {
 			return "", nil, fmt.Errorf("bad interface in %q", t)
 		}
-		evs = append(evs, event{t[0], i})
+		ev := event{st: t[0], ifi: i}
+		if len(t) == 3 {
+			ev.during = t[2]
+		}
+		evs = append(evs, ev)
 	}
 	return kind, evs, nil
 }
@@ -165,9 +173,34 @@ func runCase(id, input string) (res isisx.Result) {
 		if up && everDown[ev.ifi] {
 			res.NT = true // a link comes back up
 		}
-		oc, val := isisx.Watchdog(func() {
-			devs.Update(d.name, &isisx.Dev{Index: d.index, Oper: operState[ev.st], Addrs: d.addrs})
-		})
+		for _, h := range fac.All() {
+			h.TakeSent()
+		}
+		dev := &isisx.Dev{Index: d.index, Oper: operState[ev.st], Addrs: d.addrs}
+		duringBusy := ""
+		switch ev.during {
+		case 't':
+			res.NT = true
+			dev.During = func() { // runs inside DeviceUpdate, under the interface lock
+				for _, t := range clk.Tickers() {
+					if t.Label == d.name && t.D == helloInterval*time.Second { // this interface's hello ticker(s)
+						t.TryTick(clk.Now())
+					}
+				}
+				duringBusy = isisx.Settle()
+			}
+		case 'r':
+			res.NT = true
+			dev.During = func() {
+				// (not VerifIfaState: it would call GetOperState of this very device again)
+				if e, ok := s.GetEthernetInterface(d.name).(*isisx.Eth); ok && e != nil {
+					e.Inject(nbrMAC, nbrHello(ev.ifi, uint32(d.index)))
+				}
+				duringBusy = isisx.Settle()
+			}
+		}
+		clk.SetLabel(d.name) // the hello ticker an interface creates when it starts carries its name
+		oc, val := isisx.Watchdog(func() { devs.Update(d.name, dev) })
 		if up {
 			wasUp[ev.ifi] = true
 		} else if wasUp[ev.ifi] {
@@ -183,9 +216,18 @@ func runCase(id, input string) (res isisx.Result) {
 				fmt.Sprintf("%s: DeviceUpdate panicked: %v", evname, val))
 			res.Abnormal = true
 		case "blocked":
-			obs = append(obs, "blocked:device-update")
-			fail("blocked-device-update", evname+": DeviceUpdate did not return")
+			if ev.during != 0 {
+				obs = append(obs, "blocked:during-update")
+				fail("blocked-during-update", evname+": DeviceUpdate did not return after "+
+					map[byte]string{'t': "the hello ticker fired", 'r': "a frame arrived"}[ev.during]+" while it was running")
+			} else {
+				obs = append(obs, "blocked:device-update")
+				fail("blocked-device-update", evname+": DeviceUpdate did not return")
+			}
 			res.Abnormal = true
+		}
+		if duringBusy != "" && oc == "ok" {
+			fail("busy-during-update", evname+": a server goroutine kept running: "+duringBusy)
 		}
 		if oc != "ok" {
 			break
@@ -217,10 +259,18 @@ func runCase(id, input string) (res isisx.Result) {
 				b(st.DoneClosed), b(st.HasEth), closed, n))
 		}
 
-		// 5 seconds of server life: one tick of every periodic routine
+		// hellos written while the update ran (a tick during the update)
+		during := 0
 		for _, h := range fac.All() {
-			h.TakeSent()
+			for _, p := range h.TakeSent() {
+				if len(p) > 4 && p[4] == packet.P2P_HELLO {
+					during++
+				}
+			}
 		}
+		parts = append(parts, fmt.Sprintf("t%d", during))
+
+		// 5 seconds of server life: one tick of every periodic routine
 		clk.Advance(helloInterval * time.Second)
 		blocked := ""
 		for _, t := range clk.Tickers() {
@@ -380,6 +430,28 @@ func main() {
 				tr.Count("sweep_single_" + kind)
 			}
 		}
+		// a hello tick / a frame arriving WHILE an update is processed, at every position: all sequences up to
+		// length 4 (thorough: 5) over {U,D} x {plain, tick during}, and over {U,D} x {plain, frame during}
+		LD := 4
+		if cfg.Tier == "thorough" {
+			LD = 5
+		}
+		for _, alpha := range [][]string{{"U0", "D0", "U0t", "D0t"}, {"U0", "D0", "U0r", "D0r"}} {
+			for _, in := range sweep("a", alpha, LD) {
+				if strings.ContainsAny(in[5:], "tr") {
+					add(fmt.Sprintf("sd%d", n), in)
+					n++
+					tr.Count("sweep_during_a")
+				}
+			}
+		}
+		for _, in := range sweep("p", []string{"U0", "D0", "U0t", "D0r"}, 3) {
+			if strings.ContainsAny(in[5:], "tr") {
+				add(fmt.Sprintf("sd%d", n), in)
+				n++
+				tr.Count("sweep_during_p")
+			}
+		}
 		// both kinds of interface on one server: all sequences up to length L over {U,D} x {if0,if1}
 		L := 4
 		if cfg.Tier == "thorough" {
@@ -408,7 +480,11 @@ func main() {
 				if r.Chance(25) {
 					st = "NLTMK"[r.Intn(5)]
 				}
-				toks = append(toks, fmt.Sprintf("%c%d", st, r.Intn(len(kind))))
+				suffix := ""
+				if r.Chance(20) {
+					suffix = []string{"t", "r"}[r.Intn(2)]
+				}
+				toks = append(toks, fmt.Sprintf("%c%d%s", st, r.Intn(len(kind)), suffix))
 			}
 			add(fmt.Sprintf("g%d", i), strings.Join(toks, " "))
 			tr.Count("random_" + kind)
